@@ -316,7 +316,7 @@ impl ExpertNode {
 //@ cells: children, force_stale, num_invalid_children, will_fire_all_callbacks
 //@ tracing: yes
 //@ panics: diverge
-//@ rule R8: `child.on_change()` => `{ child.on_change(); vx_diverge() }` x*
+//@ rule R8 re: `(\w+)\s*\.\s*on_change\(\)` => `{ \1.on_change(); vx_diverge() }` x*
 //@ rule R7 re: `for (\w+) in (\w+)\s*\{` => `for \1 in vx_it: \2 {` x*
 //@ props: C14
 //@ contract:
